@@ -78,6 +78,10 @@ def run(pid):
         ben = [r for r in res if r['status'] in ('silent', 'false-alarm')]
         out['selftest_benign_total'] = len(ben)
         out['selftest_benign_silent'] = sum(r['status'] == 'silent' for r in ben)
+        out['selftest_benign_false_alarms'] = [r['id'] for r in ben if r['status'] == 'false-alarm']
+        unrec = [r for r in res if r['status'] in ('unrecognised', 'recognised')]
+        out['selftest_unrecognised_rewrites'] = {'total': len(unrec), 'alarming_for_this_property': [r['id'] for r in unrec if r['status'] == 'unrecognised'],
+                                                 'note': 'behaviour-preserving rewrites outside the recognised idiom set (selftest/unrecognised_patches/README.md)'}
         out['selftest_skipped'] = [r['id'] for r in res if r['status'] in ('skipped', 'invalid')]
         out['selftest_wall_s'] = round(dt, 1)
     except Exception as e:  # the self-test can never turn a passing check into a failing one
